@@ -6,7 +6,7 @@ stdin : {"reaction": <name>, "formalism": ..., "mode": "replay"|"ref",
          "behaviours": [[["SetAlign",1,"dpd1"],["Formulate",1],...], ...]   (replay)
          "keys": [<key>...]                                                   (ref) }
 stdout: {"results": ...}
-A key is [cfg, choice, perm] with cfg = {"align","stable","scalar","coup"}, choice = {absname: tag}.
+A key is [cfg, choice, perm] with cfg = {"align","stable","scalar","coup","naming"}, choice = {absname: tag}.
 """
 from __future__ import annotations
 
@@ -80,6 +80,7 @@ class World:
         self.reaction = reaction
         self.names = resonance_names(reaction)
         self.builders = {}
+        self.naming_defaults = {}
 
     def builder(self, b):
         import ampform
@@ -111,6 +112,12 @@ class World:
             bl.config.scalar_initial_state_mass = bool(act[2])
         elif name == "SetCoup":
             bl.config.use_helicity_couplings = bool(act[2])
+        elif name == "SetNaming":
+            # "default" = the options the generator was constructed with (they differ between the helicity and the canonical generator)
+            if hasattr(bl.naming, "insert_parent_helicities"):
+                d = self.naming_defaults.setdefault(b, (bl.naming.insert_parent_helicities, bl.naming.insert_child_helicities))
+                bl.naming.insert_parent_helicities = True if act[2] == "parent" else d[0]
+                bl.naming.insert_child_helicities = (not d[1]) if act[2] == "nochild" else d[1]
         elif name == "Assign":
             fn = {"none": create_non_dynamic, "bw": create_relativistic_breit_wigner, "bwff": create_relativistic_breit_wigner_with_ff}[act[3]]
             rn = self.real_name(act[2])
@@ -131,6 +138,8 @@ class World:
 def key_to_actions(key, b=1):
     cfg, choice, perm = key
     acts = [["SetAlign", b, cfg["align"]], ["SetStable", b, cfg["stable"]], ["SetScalar", b, cfg["scalar"]], ["SetCoup", b, cfg["coup"]]]
+    if cfg.get("naming", "default") != "default":
+        acts.append(["SetNaming", b, cfg["naming"]])
     for n, t in sorted(choice.items()):
         acts.append(["Assign", b, n, t])
     if perm:
